@@ -422,6 +422,7 @@ func TestC16Reorgs(t *testing.T) {
 		evid.R.Label("removals-of-state-neutral-block-at-height-of-abandoned-state-changing-block", int64(st.revertNeutralOverStale+st.recoverNeutralOverStale))
 		evid.R.Label("removals-at-height-that-saw-2+-blocks", int64(st.removedAtMultiHeight))
 		evid.R.Label("state-neutral-blocks-committed", int64(st.neutralCommitted))
+		countScanLabels(&st)
 	})
 }
 
